@@ -11,33 +11,143 @@ Definition sent0 : lkey := [".."; "sentinel"; "dtD"; "dtD_Cam_det0_..yaml"].
 Definition st0 : state := mkState [] [] [] [(stage0, 1%N); (sent0, 2%N)].
 Definition fmt (run : string) : fresult := gen_format GEN_DEFAULT (fields_D "dtD" run "Cam" "0" "det0").
 
-(* the containment check of FileTemplate.format accepts a run whose percent-escapes decode to ".." *)
-Lemma containment_refuted_p :
-  exists run p, fmt run = FOk p /\ inside (target_loc p ".yaml") = false.
-Proof. exists "%2E%2E/sentinel". eexists. split; vm_compute; reflexivity. Qed.
+(* ---- before df0ecd0 (textual check only): witnesses on step_v false ------------------------------------------ *)
 
-(* ... and without the check (cf1a6db) a plain "../outside" would pass *)
+(* the textual containment check of FileTemplate.format accepts a run whose percent-escapes decode to ".." ... *)
+Lemma containment_refuted_without_fix_p :
+  exists run p, fmt run = FOk p /\ checked false p = true /\ inside (target_loc p ".yaml") = false.
+Proof. exists "%2E%2E/sentinel". eexists. conj; vm_compute; reflexivity. Qed.
+
+(* ... and without the textual check (cf1a6db) a plain "../outside" would pass FileTemplate.format *)
 Lemma containment_refuted_without_check_p :
   exists run raw, fmt run = FOutside
     /\ format_raw GEN_SAN_VALUE GEN_SAN_SLASH (fst GEN_DEFAULT) (fields_D "dtD" run "Cam" "0" "det0") "" = Some raw
     /\ inside (target_loc (finish_path_unchecked (fix_tail GEN_SAN_TAIL raw)) ".yaml") = false.
 Proof. exists "../outside". eexists. split; [|split]; vm_compute; reflexivity. Qed.
 
-(* put into such a run: the pre-existing file outside the root is overwritten and then removed by the rollback *)
-Lemma outside_put_refuted_p :
+(* put into such a run: the pre-existing file outside the root was overwritten and removed by the rollback *)
+Lemma outside_put_refuted_without_fix_p :
   exists run s', fget (fs st0) sent0 = Some 2%N
-    /\ step st0 (Put 1 (fmt run) ".yaml" 9) = (s', Refused RuntimeErr)
+    /\ step_v false st0 (Put 1 (fmt run) ".yaml" 9) = (s', Refused RuntimeErr)
     /\ fget (fs s') sent0 = None /\ inside sent0 = false.
 Proof. exists "%2E%2E/sentinel". eexists. conj; vm_compute; reflexivity. Qed.
 
-(* ingest(copy) into such a run SUCCEEDS: a file outside the root is overwritten; pruning the dataset removes it *)
-Lemma outside_ingest_refuted_p :
+(* ingest(copy) into such a run SUCCEEDED: a file outside the root was overwritten; pruning the dataset removed it *)
+Lemma outside_ingest_refuted_without_fix_p :
   exists run s1,
-    step st0 (Ingest Copy [1%N] (fmt run) ".yaml" stage0) = (s1, Done)
+    step_v false st0 (Ingest Copy [1%N] (fmt run) ".yaml" stage0) = (s1, Done)
     /\ fget (fs st0) sent0 = Some 2%N /\ fget (fs s1) sent0 = Some 1%N
     /\ recs_inside s1 = false
     /\ fget (fs (fst (step s1 (Prune [1%N])))) sent0 = None.
 Proof. exists "%2E%2E/sentinel". eexists. conj; vm_compute; reflexivity. Qed.
+
+(* ---- with df0ecd0: a text whose RESOLVED location is not under the root is refused before anything happens ------ *)
+Lemma unchecked_put_refused_p : forall s id p ext c,
+  inside (rel_loc (stage_a p)) = false -> step s (Put id (FOk p) ext c) = (s, Refused ValueErr).
+Proof.
+  intros s id p ext c H. unfold step, step_v, refuse_location, checked. rewrite H. simpl.
+  rewrite orb_true_r. reflexivity.
+Qed.
+
+Lemma unchecked_ingest_refused_p : forall s m ids p ext src,
+  inside (rel_loc (stage_a p)) = false ->
+  fst (step s (Ingest m ids (FOk p) ext src)) = s /\ snd (step s (Ingest m ids (FOk p) ext src)) <> Done.
+Proof.
+  intros s m ids p ext src H. unfold step, step_v, refuse_location, checked. rewrite H. simpl.
+  rewrite orb_true_r. destruct (fget (fs s) src); simpl; split; try reflexivity; discriminate.
+Qed.
+
+(* the four spellings of the repaired defect are refused for put and ingest, the outside file keeps its content *)
+Lemma escapes_refused_now_p : forall run, In run ["%2E%2E/sentinel"; "%2e%2e/sentinel"; "%252E%252E/sentinel"; "%2fsentinel"] ->
+  step st0 (Put 1 (fmt run) ".yaml" 9) = (st0, Refused ValueErr)
+  /\ step st0 (Ingest Copy [1%N] (fmt run) ".yaml" stage0) = (st0, Refused ValueErr).
+Proof.
+  intros run H. simpl in H. repeat (destruct H as [<-|H]; [split; vm_compute; reflexivity|]). contradiction.
+Qed.
+
+(* ---- containment on components: "outside" is absorbing, so a prefix of an inside path is inside ----------------- *)
+Definition bot (st : list string) : string := last st "".
+
+Lemma bot_cons : forall a st, st <> [] -> bot (a :: st) = bot st.
+Proof. intros a st H. unfold bot. destruct st; [contradiction | reflexivity]. Qed.
+
+Lemma norm_step_absorbs : forall st c, bot st = ".." -> bot (norm_step false st c) = "..".
+Proof.
+  intros st c H. unfold norm_step.
+  destruct (String.eqb c "" || String.eqb c "."); [exact H|].
+  assert (Hne : st <> []) by (intro E; subst; discriminate H).
+  destruct (String.eqb c "..").
+  - destruct st as [|top rest]; [contradiction|].
+    destruct (String.eqb top "..") eqn:Et.
+    + rewrite bot_cons by discriminate. exact H.
+    + destruct rest as [|r2 rest'].
+      * unfold bot in H. simpl in H. subst top. discriminate Et.
+      * rewrite bot_cons in H by discriminate. exact H.
+  - rewrite bot_cons by exact Hne. exact H.
+Qed.
+
+Lemma fold_absorbs : forall l st, bot st = ".." -> bot (fold_left (norm_step false) l st) = "..".
+Proof. induction l as [|c r IH]; intros st H; [exact H|]. simpl. apply IH. apply norm_step_absorbs. exact H. Qed.
+
+Lemma hd_rev_bot : forall st, hd "" (rev st) = bot st.
+Proof.
+  induction st as [|a r IH]; [reflexivity|]. simpl.
+  destruct r as [|b r'].
+  - reflexivity.
+  - rewrite bot_cons by discriminate. rewrite <- IH.
+    destruct (rev (b :: r')) eqn:E; [|reflexivity].
+    apply (f_equal (@length string)) in E. rewrite rev_length in E. discriminate E.
+Qed.
+
+Lemma is_prefix_split : forall a b, is_prefix a b = true -> exists r, b = (a ++ r)%list.
+Proof.
+  induction a as [|x r IH]; intros b H; [exists b; reflexivity|].
+  destruct b as [|y r']; [discriminate|]. simpl in H. apply andb_true_iff in H. destruct H as [H1 H2].
+  apply String.eqb_eq in H1. subst y. destruct (IH _ H2) as [t Ht]. exists t. simpl. rewrite Ht. reflexivity.
+Qed.
+
+Lemma plain_step : forall st c, plain_comp c = true -> norm_step false st c = c :: st.
+Proof.
+  intros st c H. unfold plain_comp in H. apply andb_true_iff in H. destruct H as [H H3].
+  apply andb_true_iff in H. destruct H as [H1 H2].
+  apply negb_true_iff in H1, H2, H3. unfold norm_step. rewrite H1, H2, H3. reflexivity.
+Qed.
+
+(* if the normalised comps `a` are inside, so are (any prefix of a) ++ [ordinary name] *)
+Lemma prefix_plain_inside : forall a init lst,
+  inside (rev (fold_left (norm_step false) a [])) = true ->
+  is_prefix init a = true -> plain_comp lst = true ->
+  inside (rev (fold_left (norm_step false) (init ++ [lst])%list [])) = true.
+Proof.
+  intros a init lst Ha Hp Hl. destruct (is_prefix_split _ _ Hp) as [r Hr]. subst a.
+  rewrite fold_left_app in Ha. rewrite fold_left_app. simpl.
+  set (s1 := fold_left (norm_step false) init []) in *.
+  rewrite plain_step by exact Hl.
+  unfold inside in *. rewrite hd_rev_bot in *.
+  destruct (String.eqb (bot s1) "..") eqn:E.
+  - apply String.eqb_eq in E. rewrite (fold_absorbs r s1 E) in Ha. discriminate Ha.
+  - destruct s1 as [|x y] eqn:Es.
+    + unfold bot. simpl. unfold plain_comp in Hl. apply andb_true_iff in Hl. destruct Hl as [_ Hl]. exact Hl.
+    + rewrite bot_cons by discriminate. rewrite E. reflexivity.
+Qed.
+
+(* writes_inside_root, partial: the location CHECKED by Location (df0ecd0) is inside => the location WRITTEN (after the
+   extension is attached) is inside, for every text -- any characters, any escapes -- provided attaching the extension
+   acts on the decoded components as `ext_bridge` says (decidable; evaluated on every correspondence case). *)
+Lemma writes_inside_root_partial_p : forall p ext,
+  is_abs (unq (stage_a p)) = false -> checked true p = true -> ext_bridge p ext = true ->
+  inside (target_loc p ext) = true.
+Proof.
+  intros p ext Hna Hc Hb. unfold checked in Hc. simpl in Hc. unfold rel_loc in Hc. rewrite Hna in Hc.
+  unfold ext_bridge in Hb. apply andb_true_iff in Hb. destruct Hb as [Hab Hb]. apply negb_true_iff in Hab.
+  unfold target_loc, target_text, rel_loc. rewrite Hab.
+  destruct (rev (split_slash (unq (set_ext (stage_a p) ext)))) as [|lst rinit] eqn:E; [discriminate|].
+  apply andb_true_iff in Hb. destruct Hb as [Hpl Hpre].
+  assert (Es : split_slash (unq (set_ext (stage_a p) ext)) = (rev rinit ++ [lst])%list).
+  { rewrite <- (rev_involutive (split_slash _)). rewrite E. reflexivity. }
+  unfold norm_comps in *. rewrite Hab. rewrite Hna in Hc. rewrite Es.
+  apply (prefix_plain_inside (split_slash (unq (stage_a p)))); assumption.
+Qed.
 
 (* two record texts, one file: "aJb/..." (put) and "a%4ab/..." (ingest); pruning one removes the other's artifact *)
 Lemma alias_refuted_p :
